@@ -44,8 +44,11 @@ def make_case(tier, seed, index):
     scen = None
     if rng.random() < 0.3:
         cands = [p for p in spec["pars"] if not p["timed"] and (p["db"] or p["function"]) and not p["name"].startswith(("agg", "out"))]
+        aggs = [p for p in spec["pars"] if p["name"].startswith("agg")]
         if cands:
             p = cands[int(rng.integers(0, len(cands)))]
+            if aggs and len(spec["pops"]) >= 2 and rng.random() < 0.5:
+                p = aggs[0]  # a scenario on a population aggregation, for one population only: the others keep being aggregated
             s = spec["settings"]
             y0 = float(s["start"] + rng.uniform(0.05, 0.9) * (s["end"] - s["start"]))
             if rng.random() < 0.5:
